@@ -239,7 +239,14 @@ func (m *machine) registerIntrinsics() {
 	in["sync.NewCond"] = func(fr *frame, fn *ssa.Function, args []value) value {
 		// *sync.Cond: a heap cell holding the real struct's zero value; state is kept aside
 		i := fr.i
-		cell := zero(fn.Signature.Results().At(0).Type().(*types.Pointer).Elem())
+		ct := fn.Signature.Results().At(0).Type().(*types.Pointer).Elem()
+		cell := zero(ct)
+		st := ct.Underlying().(*types.Struct)
+		for k := 0; k < st.NumFields(); k++ {
+			if st.Field(k).Name() == "L" {
+				cell.(structure)[k] = args[0]
+			}
+		}
 		p := &cell
 		i.conds[p] = &condState{locker: args[0].(iface)}
 		return p
